@@ -785,7 +785,7 @@ def writer_table(ctx, rule, aspects, format_name="delimited"):
 
 
 # =============================================================================== histories on one CID (C08)
-HISTORY_OPS = ["read+close", "read-abandon", "read-noclose", "reader-close-only", "write+close", "write-noclose",
+HISTORY_OPS = ["read+close", "read-abandon", "read-noclose", "reader-close-only", "write+close", "write-noclose", "writer-close-only",
                "rows()", "validate()", "validate-limit-0", "validate_rows+close", "two-readers-created-then-read"]
 
 
@@ -851,8 +851,9 @@ def history_run(model, ch, length):
                 target = Obj("io.StringIO", {"name": "<target>", "write": stub(lambda i, a, k: None), "close": stub(lambda i, a, k: None)},
                              label="target")
                 writer = _construct(interp, WRITER, [cid, target])
-                interp.call_function(model.func(WRITER + ".write_row"), [writer, world.row(0, 2)], {}, None)
-                if op == "write+close":
+                if op != "writer-close-only":
+                    interp.call_function(model.func(WRITER + ".write_row"), [writer, world.row(0, 2)], {}, None)
+                if op in ("write+close", "writer-close-only"):
                     interp.call(interp.getattr(writer, "close"), [], {})
             elif op == "rows()":
                 generator = interp.call_function(model.func("cutplace.validio.rows"), [cid, stream], {}, None)
